@@ -268,6 +268,31 @@ def _order(r, p):
             r.fail("C08.order", K + ":normalisers", "the phase-1 normalisers do not run after the phase-1 rules under `%s == 1`" % pv, fix.loc(calls[0][1]))
     else:
         r.fail("C08.order", K + ":normalisers", "phase-1 normalisers run as %s (expected %s): blank-line tokens / trailing whitespace / index would not match a re-parse" % (names, order), fix.loc())
+    # the two whole-file normalisers reproduce what the reader would build (a whitespace-only line is one blank_line token,
+    # no whitespace token before a carriage return).  The reader knows nothing about code tags, rule ids or configuration, so
+    # to agree with a re-parse for every input they must decide by token class and neighbour class alone.
+    allowed_calls = {"isinstance", "enumerate", "range", "len"}
+    for name in ("fix_blank_lines", "fix_trailing_whitespace"):
+        nf = p.function("vsg.vhdlFile.utils:" + name)
+        bad = []
+        for n in walk_function(nf.node):
+            if isinstance(n, ast.Call):
+                ct = callee_text(n)
+                if ct in allowed_calls:
+                    continue
+                if isinstance(n.func, ast.Attribute) and n.func.attr in ("append", "pop", "extend") and isinstance(n.func.value, ast.Name) and n.func.value.id not in nf.params:
+                    continue
+                ent = p.resolve_expr(nf.module, n.func) if isinstance(n.func, (ast.Name, ast.Attribute)) else None
+                if ent and ent[0] == "class" and ent[1].key in ("vsg.parser:blank_line", "vsg.parser:carriage_return", "vsg.parser:whitespace"):
+                    continue
+                bad.append(norm(n)[:60])
+            elif isinstance(n, ast.Attribute) and isinstance(n.ctx, ast.Load) and isinstance(n.value, ast.Subscript):
+                bad.append(norm(n)[:60])  # reads a field of a token
+        kk = "%s:class-only" % nf.key
+        if bad:
+            r.fail("C08.order", kk, "%s consults `%s`: the normaliser no longer decides by token class alone, so for some inputs the model after phase 1 differs from what a parse of the written text builds (the reader has no such information)" % (name, bad[0]), nf.loc())
+        else:
+            r.ok("C08.order", kk, "decides by token class and neighbour class only")
     # after --fix the report comes from a fresh check of the same model
     ar = p.function("vsg.apply_rules:apply_rules")
     af = Facts(ar.node)
@@ -341,6 +366,8 @@ VARIANTS = [
             rule="C08.schema", key="hierachy"),
     Variant("C08", "write-back without the final newline", "fire",
             [("vsg/apply_rules.py", '            oFile.write("\\n".join(oVhdlFile.get_lines()[1:]))\n            oFile.write("\\n")\n', '            oFile.write("\\n".join(oVhdlFile.get_lines()[1:]))\n')], rule="C08.emit"),
+    Variant("C08", "blank-line normaliser respects a code tag the trailing-whitespace normaliser ignores", "fire",
+            [("vsg/vhdlFile/utils.py", "                and isinstance(oToken, parser.whitespace)\n                and isinstance(lTokens[iToken + 1], parser.carriage_return)\n            ):", "                and isinstance(oToken, parser.whitespace)\n                and not oToken.has_code_tag(\"whitespace_001\")\n                and isinstance(lTokens[iToken + 1], parser.carriage_return)\n            ):")], rule="C08.order", key="class-only"),
     Variant("C08", "twin: write-back builds the text in a local first", "silent",
             [("vsg/apply_rules.py", '            oFile.write("\\n".join(oVhdlFile.get_lines()[1:]))\n            oFile.write("\\n")\n', '            lLines = oVhdlFile.get_lines()[1:]\n            sText = "\\n".join(lLines) + "\\n"\n            oFile.write(sText)\n')]),
     Variant("C08", "twin: refresh indents unconditionally each phase", "silent",
